@@ -8,6 +8,7 @@ block lists give equal records, equal errors and equal line numbers.
 -/
 import KlogV.Lemmas.Parallel
 import KlogV.Props.GoPar
+import KlogV.Props.GoTxt
 namespace KlogV.C07
 
 /-- The chunks are exactly `n` pieces whose concatenation is the text. -/
